@@ -27,6 +27,7 @@ type psVector struct {
 	MaxOps int           `json:"maxops"`
 	Status string        `json:"status"`
 	Errs   []string      `json:"errs"`
+	NOps   *int          `json:"nops"`
 	psbind.Final
 }
 
@@ -146,6 +147,9 @@ func opSig(v *psVector, kind string) string {
 	name := v.Op
 	if name == "" {
 		name = "prog{" + progFeatures(v.Prog) + "}"
+		if strings.HasPrefix(kind, "budget-count") {
+			name = "prog"
+		}
 	}
 	return fmt.Sprintf("%s [%s] %s", name, strings.Join(cls, ","), kind)
 }
@@ -209,6 +213,9 @@ func checkVector(base *psBase, v *psVector, line int) *disagreement {
 		if err := b.Compare(&v.Final); err != nil {
 			return mk("state", "final state differs from the reference", "", err.Error())
 		}
+		if v.NOps != nil && *v.NOps != out.NumOps {
+			return mk("numops", "operation count differs from the reference", fmt.Sprintf("NumOps=%d", *v.NOps), fmt.Sprintf("NumOps=%d", out.NumOps))
+		}
 	case "error":
 		if out.Err == nil {
 			return mk("missing-error:"+strings.Join(v.Errs, "|"), "the reference prescribes an error, the library succeeds", "error "+strings.Join(v.Errs, "|"), "success")
@@ -222,6 +229,9 @@ func checkVector(base *psBase, v *psVector, line int) *disagreement {
 		}
 		if !ok {
 			return mk("error-name:"+name+"!="+strings.Join(v.Errs, "|"), "wrong error name", "error "+strings.Join(v.Errs, "|"), out.Err.Error())
+		}
+		if len(v.Errs) == 1 && v.Errs[0] == "budget" && out.NumOps != v.MaxOps+1 {
+			return mk(fmt.Sprintf("budget-count overshoot=%d", out.NumOps-v.MaxOps-1), "the budget error must surface with NumOps = MaxOps+1", fmt.Sprintf("NumOps=%d", v.MaxOps+1), fmt.Sprintf("NumOps=%d", out.NumOps))
 		}
 	default:
 		return mk("harness", "vector with status "+v.Status, "", "")
